@@ -53,6 +53,7 @@ pub fn run(ctx: &Ctx) -> Report {
     });
     rep.absorb(r);
     sim_scale(ctx, &mut rep);
+    sim_decode(ctx, &mut rep);
     let all = isa::all_instrs();
     let n = all.len() as u64;
     let r = sweep(ctx, n, 512, |i, acc| {
@@ -77,8 +78,40 @@ fn sim_scale(ctx: &Ctx, rep: &mut Report) {
     });
     rep.absorb(r);
 }
+/// Every word again where decoding is applied to fetched words: placed (fully initialised) at x3000 of a user-mode machine with all registers
+/// written, under each combination of the strict / real-traps / ignore-privilege flags, and stepped once. The step's outcome must fall in the
+/// word's decode class: an illegal-opcode or invalid-format error exactly when the reference says so; any other outcome (success, access
+/// violation, strict-mode objection about an operand ...) only for canonical encodings.
+fn sim_decode(ctx: &Ctx, rep: &mut Report) {
+    let r = sweep(ctx, 65536 * 8, 2048, |i, acc| {
+        let (w, f) = ((i % 65536) as u16, i / 65536);
+        acc.evals += 1; acc.transitions += 1; acc.count("words_decoded_by_a_step", 1);
+        if let Some((sig, d)) = sim_decode_one(w, f) { acc.violation(sig, format!("sd:{w}:{f}"), d); }
+    });
+    rep.absorb(r);
+}
+fn sim_decode_one(w: u16, f: u64) -> Option<(String, String)> {
+    use lc3_ensemble::sim::{mem::MachineInitStrategy, SimFlags, Simulator};
+    let flags = SimFlags { strict: f & 1 != 0, use_real_traps: f & 2 != 0, ignore_privilege: f & 4 != 0, machine_init: MachineInitStrategy::Known { value: 0 }, ..Default::default() };
+    let r = catch(move || {
+        let mut sim = Simulator::new(flags);
+        for k in 0..8 { sim.reg_file[crate::refs::isa::reg(k)].set(0x3100 + k as u16); }
+        sim.mem[0x3000].set(w); sim.mem[0x3001].set(0xF025);
+        for a in 0x3100u16..0x3140 { sim.mem[a].set(0x3200); }
+        sim.pc = 0x3000;
+        sim.step_in()
+    });
+    let got = match r { Err(p) => return Some((format!("panic:{}", panic_site(&p)), format!("stepping onto {w:#06x} (flags {f:03b}) panicked: {p}"))), Ok(g) => g };
+    let class = |e: &Result<(), SimErr>| match e { Err(SimErr::IllegalOpcode) => 1, Err(SimErr::InvalidInstrFormat) => 2, _ => 0 };
+    let exp = match isa::decode(w) { Ok(_) => 0, Err(RDecErr::IllegalOpcode) => 1, Err(RDecErr::InvalidFormat) => 2 };
+    // under real traps the reserved opcode is vectored to the OS instead of being returned as an error: not a decode verdict the step reports
+    if f & 2 != 0 && exp != 0 { return None; } // (real traps: undecodable words are vectored to the OS, the step itself succeeds)
+    if class(&got) != exp { return Some((format!("simulator-decodes-differently:{}", opname(w)), format!("word {w:#06x} fetched by a simulator with strict={} real_traps={} ignore_privilege={}: step returned {got:?}; the word's decode class is {}", f & 1 != 0, f & 2 != 0, f & 4 != 0, ["an instruction", "illegal opcode", "invalid format"][exp]))); }
+    None
+}
 pub fn replay(case: &str) -> Option<String> {
     if let Some(rest) = case.strip_prefix("s4:") { let (n, f) = rest.split_once(':')?; return super::c08::s4(n.parse().ok()?, f.parse().ok()?, 0).err().map(|(s, d)| format!("[{s}] {d}")); }
+    if let Some(rest) = case.strip_prefix("sd:") { let (w, f) = rest.split_once(':')?; return sim_decode_one(w.parse().ok()?, f.parse().ok()?).map(|(s, d)| format!("[{s}] {d}")); }
     let (k, v) = case.split_once(':')?;
     let w: u16 = v.parse().ok()?;
     match k {
